@@ -191,7 +191,7 @@ pub fn run(ctx: &Ctx, rep: &mut Report) {
     rep.prop(
         "bodies-and-truncations",
         "proptest: bodies with S elevation segments (0,1,2,5 common; up to 40 and 255 in the thorough tier) x 360 azimuths x 0..=25 zones of arbitrary values, decoded and compared structurally; then every truncation point inside the first two azimuth segments, +-3 bytes around azimuth-segment boundaries and up to 40 random points must be errors; non-trivial = S >= 2 with >= 2 distinct zone counts",
-        ctx.tier.pick(700, 14_000),
+        ctx.tier.pick(1_500, 14_000),
         move || case_strategy(big),
         |c| {
             let mut counts = std::collections::HashSet::new();
